@@ -177,3 +177,33 @@ theorem dotX_getInvariant (ins : List (List Dim × List Nat)) : GetInvariant (do
   rw [this]
 
 end Einx.Denote
+
+namespace Einx.Denote
+open Einx Einx.IR
+open Einx.Update (mapOpt mapOpt_congr)
+
+/-! ### elementwise operations have the shape `genCells` -/
+
+def ewX (f : String) (ins : List (List Dim × List Nat)) (σ : Assign) : Option Cell := (ewArgs ins σ).map (Cell.app f)
+
+theorem ewCells_eq_genCells (f : String) (ins : List (List Dim × List Nat)) (vo : List Dim) (so : List Nat) :
+    ewCells f ins vo so = genCells (ewX f ins) vo so := by
+  unfold ewCells genCells
+  have : ewEntry f ins vo so = genEntry (ewX f ins) vo so := by
+    funext σ
+    simp only [ewEntry, genEntry, ewX]
+    cases ewArgs ins σ <;> cases flatPos vo so σ <;> rfl
+  rw [this]
+  cases mapOpt (genEntry (ewX f ins) vo so) (outAssignments vo) <;> rfl
+
+theorem ewX_getInvariant (f : String) (ins : List (List Dim × List Nat)) : GetInvariant (ewX f ins) := by
+  intro σ σ' h
+  unfold ewX ewArgs
+  congr 1
+  apply mapOpt_congr
+  intro p _
+  rcases extend_sameGet (Dim.leavesL p.1.1) σ σ' h with ⟨h1, h2⟩ | ⟨σ1, σ1', h1, h2, hs⟩
+  · rw [h1, h2]
+  · rw [h1, h2]; exact cellAt_sameGet hs _ _ _
+
+end Einx.Denote
